@@ -335,8 +335,13 @@ def proto_ok(p):
     return p is None or (p._transport is not None and (not isinstance(p, _LanProtocolV3) or 0 <= p._packet_id <= 0xFFF))
 
 
+def lifetime_armed(lan):
+    """C07: a configured connection lifetime is in force on the connection that exists (whenever it was configured)"""
+    return lan._protocol is None or not lan._max_connection_lifetime or lan._connection_expiration is not None
+
+
 def lan_inv(lan):
-    return proto_ok(lan._protocol) and (lan._token is None or len(lan._token) <= 65000)
+    return proto_ok(lan._protocol) and (lan._token is None or len(lan._token) <= 65000) and lifetime_armed(lan)
 
 
 contract(LANC + "._read",
@@ -509,6 +514,7 @@ contract(LANC + "._connect",
                   "class_by_version": "isinstance(self._protocol, _LanProtocolV3) == (self._protocol_version == 3)",
                   "fresh_v3_session": "implies(isinstance(self._protocol, _LanProtocolV3), self._protocol._local_key is None and self._protocol._local_key_expiration is None and self._protocol._packet_id == 0)",
                   "lifetime": "implies(self._max_connection_lifetime is None, self._connection_expiration == old(self._connection_expiration))",
+                  "configured_lifetime_is_armed": "lifetime_armed(self)",
                   "not_expired_yet": "implies(self._max_connection_lifetime is not None and self._max_connection_lifetime.total_seconds() > 0, alive_spec(self))"})
 
 
@@ -605,9 +611,14 @@ contract(LANC + ".__init__",
 
 contract(LANC + ".max_connection_lifetime!setter",
          params={"self": "obj:" + LANC, "seconds": "opt:int[0,86400000]"},
-         modifies=["self._max_connection_lifetime"], raises={},
+         requires=["lan_inv(self)"],
+         modifies=["self._max_connection_lifetime", "self._connection_expiration"], raises={},
          ensures={"none_means_unlimited": "(self._max_connection_lifetime is None) == (seconds is None)",
-                  "seconds_kept": "implies(seconds is not None, self._max_connection_lifetime.total_seconds() == seconds)"})
+                  "seconds_kept": "implies(seconds is not None, self._max_connection_lifetime.total_seconds() == seconds)",
+                  "invariant_kept": "lan_inv(self)",
+                  "lifetime_counts_from_now_at_the_latest": "implies(self._protocol is not None and seconds is not None and seconds > 0, "
+                                                            "self._connection_expiration is not None and not (self._connection_expiration > datetime.now(timezone.utc) + self._max_connection_lifetime))"},
+         notes="C07: configuring a lifetime while a connection exists arms it on that connection (F18)")
 
 
 # ---- event-loop callbacks of the protocol objects: they are called by the environment, so they are verified on their own -----------
